@@ -50,7 +50,7 @@ func init() {
 	register("C14", "", rulePlanImmutable, ruleCacheKey, ruleLocks(plannerPkg+".CachedPlanner"))
 	register("C13", "", ruleLocks(plannerPkg+".CachedPlanner", modPath+"/executor.CachedPointDataExtractor"))
 	register("C18", "", ruleLocks(modPath+".subscriptionEntry"), ruleChannels, ruleConnWriters, ruleTeardown, ruleGoSites)
-	register("C17", "", ruleEventPath, ruleChannels, ruleGoSites)
+	register("C17", "", ruleEventPath, ruleChannels, ruleGoSites, ruleUpstreamForward)
 	register("C06", "", ruleOperationType, rulePlanImmutable, ruleCacheKey, ruleCallers(nil))
 	register("C02", "", ruleOperationType, ruleCacheKey)
 	register("C01", "", ruleInsertionPointFresh, ruleCacheKey)
@@ -60,9 +60,11 @@ func init() {
 	register("C11", "", ruleMultiplicity, ruleReducers, ruleGoSites)
 	register("C13", "", ruleDedup)
 	register("C01", "", ruleDedup)
-	register("C05", "", ruleMergerGuards, ruleMapRanges(scMerger, 8))
+	register("C05", "", ruleRoutingPairs)
+	register("C05", "", ruleMergerGuards, ruleMapRanges(scMerger, 5))
 	register("C04", "", ruleRoutingPairs, ruleNodeFlag, ruleReducers, ruleCallers(func(c string) bool { return strings.Contains(c, "TypeURLMap") }))
-	register("C10", "", ruleErrStructure)
+	register("C10", "", ruleErrStructure, ruleDownstreamErrorPath)
+	register("C09", "", ruleDownstreamErrorPath)
 	register("C13", "", ruleErrStructure)
 	register("C20", "", ruleErrStructure)
 	register("C15", "", ruleIntrospectionQuery, ruleDecodedFieldsUsed, ruleKindGuardsReader)
@@ -90,10 +92,16 @@ func init() {
 	register("C12", "", ruleForwardedVariables, ruleSingleLoopNesting)
 	register("C06", "", ruleSingleLoopNesting)
 	register("C02", "", ruleForwardedVariables)
+	register("C19", "", ruleForwardedVariables)
 	for _, c := range []string{"C13", "C14", "C01", "C16", "C10", "C08"} {
 		register(c, "", ruleGatewayState)
 	}
+	for _, c := range []string{"C01", "C06", "C08", "C11", "C13", "C19"} {
+		register(c, "", ruleGlobalState)
+	}
 	register("C13", "", rulePlanImmutable, ruleASTWrites)
+	register("C16", "", ruleASTWrites)
+	register("C07", "", ruleLocks(plannerPkg+".CachedPlanner", modPath+"/executor.CachedPointDataExtractor"))
 	register("C16", "", ruleSliceReuse("pebbles.(*Gateway).Handler"), ruleRootDefinitionIdentity)
 	register("C14", "", ruleSliceReuse("pebbles.(*Gateway).Handler"))
 	register("C17", "", ruleDecodeTargetScope, ruleReturnedDataScrubbed)
